@@ -25,6 +25,9 @@ ASSUMPTIONS = ["canonical form = lexicographic minimum over node permutations of
 _CANON = {}
 
 
+HOSTILE_LABELS = [0, 1, 2, 3, 4, 5, 2**32 + 2, 2**32 + 3, 2**32 + 4, 2**32 + 5, -1, -2, 2**61 - 1, 2**63 + 1]
+
+
 def quiet(fn, *a, **k):
     with contextlib.redirect_stdout(io.StringIO()):
         return fn(*a, **k)
@@ -184,6 +187,12 @@ def undirected_case(ctx, rng, idx, N):
         return
     # metamorphic: relabel by a permutation onto non-contiguous labels + shuffled insertion order
     img = rng.sample(range(0, 90, 1), n)
+    if n <= len(HOSTILE_LABELS) and idx % 3 == 1:
+        # integer labels of other value classes: negative (hash(-1) == hash(-2) in CPython), at and beyond 2**32 / 2**61 / 2**63,
+        # next to the small ones they could be confused with by a packed or hashed key
+        img = [-1, -2] + rng.sample([x for x in HOSTILE_LABELS if x not in (-1, -2)], n - 2)  # the two colliding labels always together
+        rng.shuffle(img)
+        ctx.event("hostile-integer-labels")
     pm = dict(zip(nodes, img))
     rel = [tuple(pm[v] for v in e) for e in edge_sets]
     rng.shuffle(rel)
